@@ -23,7 +23,15 @@ func c13MkNil(log *[]string) rj.Inputs {
 }
 
 func c13Mk(log *[]string) rj.Inputs {
+	calls := 0
 	return rj.Inputs{Vars: map[string]interface{}{
+		"failOnce": func() string {
+			calls++
+			if calls == 1 {
+				panic(errors.New("only the first call fails"))
+			}
+			return "ok"
+		},
 		"cT": true, "cF": false, "rS": []string{"e1", "e2"}, "rOne": []string{"only"},
 		"failE": func() string { panic(errors.New("boom")) },
 		"failS": func() string { panic("string panic") },
@@ -102,6 +110,10 @@ func c13Build(placement, catchForm int, frames []int, failPos, failKind int) *rj
 	if failPos == 1 {
 		point = append(point, c13Fail(failKind))
 	}
+	if placement == 3 {
+		// the try body shows the content the enclosing block was yielded with, and that content fails (once)
+		point = append(point, rj.T("yc:"), &rj.YieldContent{})
+	}
 	point = append(point, rj.T("o2"))
 	body := point
 	for i := len(frames) - 1; i >= 0; i-- {
@@ -132,6 +144,9 @@ func c13Build(placement, catchForm int, frames []int, failPos, failKind int) *rj
 		main = append([]rj.Stmt{rj.Let("pre", rj.S("PRE"))}, seq...)
 	case 1:
 		main = []rj.Stmt{rj.Let("pre", rj.S("PRE")), &rj.Range{X: rj.V("rOne"), Body: seq}, rj.T("|after-range.="), rj.E(&rj.Dot{})}
+	case 3:
+		b.lib = append(b.lib, &rj.BlockDef{Name: "outer", Body: seq})
+		main = []rj.Stmt{rj.Let("pre", rj.S("PRE")), &rj.Yield{Name: "outer", HasContent: true, Content: []rj.Stmt{rj.T("K1"), rj.E(rj.CallV("failOnce")), rj.T("K2")}}, rj.T("|after-yield.="), rj.E(&rj.Dot{})}
 	default: // the try runs inside a block that was yielded with content: {{yield content}} must still show it afterwards
 		b.lib = append(b.lib, &rj.BlockDef{Name: "outer", Body: seq})
 		main = []rj.Stmt{rj.Let("pre", rj.S("PRE")), &rj.Yield{Name: "outer", HasContent: true, Content: []rj.Stmt{rj.T("OUTER-CONTENT")}}, rj.T("|after-yield.="), rj.E(&rj.Dot{})}
@@ -155,7 +170,7 @@ var c13Space = registerSpace(&e1Space{
 		if th {
 			n += f * f * f * f
 		}
-		return n * 3 * 4 * int64(len(c13Fails)) * 2
+		return n * 4 * 4 * int64(len(c13Fails)) * 2
 	},
 	Gen: func(i int64, th bool) *rj.Program {
 		nilData := i%2 == 1
@@ -164,8 +179,8 @@ var c13Space = registerSpace(&e1Space{
 		i /= int64(len(c13Fails))
 		catchForm := int(i % 4)
 		i /= 4
-		placement := int(i % 3)
-		i /= 3
+		placement := int(i % 4)
+		i /= 4
 		f := int64(c13NFrames)
 		var frames []int
 		switch {
@@ -197,7 +212,7 @@ var c13Space = registerSpace(&e1Space{
 })
 
 func C13(r *core.Run) map[string]interface{} {
-	r.Rule = "try bodies built from every sequence of <=3 (thorough 4) nested frames over 10 frame kinds (range, range with variables, if-let, let, yield with parameters and context, yield with content - failure in content / in block body, include with context, exec, inner try that catches) x failure (none, at the innermost point, after the innermost frame, at the end; undefined identifier / error panic / string panic) x 4 catch forms x 3 placements (top, inside range, inside a block yielded with content) x data present / nil; after the try the program probes context, variables, catch variable and {{yield content}}; distinct = distinct reference outcomes"
+	r.Rule = "try bodies built from every sequence of <=3 (thorough 4) nested frames over 10 frame kinds (range, range with variables, if-let, let, yield with parameters and context, yield with content - failure in content / in block body, include with context, exec, inner try that catches) x failure (none, at the innermost point, after the innermost frame, at the end; undefined identifier / error panic / string panic) x 4 catch forms x 4 placements (top, inside range, inside a block yielded with content, inside such a block with the try body showing a content that fails once) x data present / nil; after the try the program probes context, variables, catch variable and {{yield content}}; distinct = distinct reference outcomes"
 	runSpace(r, c13Space)
 	return map[string]interface{}{"frames": c13NFrames, "traces_validated_against_impl": r.Evals()}
 }
